@@ -60,9 +60,10 @@ type ClosureVal struct {
 type BuiltinVal struct{ Name string }
 
 type IterVal struct {
-	Map   *Term
-	MTyp  *types.Map
-	IsStr bool
+	Map    *Term
+	MTyp   *types.Map
+	IsStr  bool
+	Region string
 }
 
 type BadVal struct{ Why string }
